@@ -217,6 +217,8 @@ def run(ctx):
     else:
         jobs = [job_cap.job(pi, m, 'all') for pi in range(len(pre)) for m in (9, 10, 11, 12, 13)]
     ctx.level('error-cap', jobs)
+    from .c12 import job_wide
+    ctx.level('wide tables (cells per row around 256)', [job_wide.job(w) for w in (256, 257, 300)])
     h = ctx.pick(2, 3)
     ctx.level('one parser, histories of rejected documents h<=%d' % h, [job_reuse.job(i, h) for i in range(len(REUSE_POOL))])
 
